@@ -1,6 +1,7 @@
 package client
 
 import (
+	"github.com/plgd-dev/go-coap/v3/net/responsewriter"
 	"context"
 
 	"github.com/plgd-dev/go-coap/v3/message"
@@ -130,6 +131,54 @@ func zzC09_tcp() {
 	symAssert(cc.Close() == nil, "Close after everything ended still succeeds")
 	symAssert(onClose[0] == 1 && onClose[1] == 1, "and runs no callback again")
 	symCover("closed")
+}
+
+// Close while the receive queue is full: a handler is still running and the peer has sent more messages than the
+// queue holds, so the read loop is waiting for a free slot - Close still ends the loop, completes the done signal
+// and runs the on-close callbacks
+func zzC09_tcp_queue_full() {
+	release := make(chan struct{})
+	entered := 0
+	nc := zzNewPipe()
+	cc := zzNewPipeConnH(nc, func(w *responsewriter.ResponseWriter[*Conn], r *pool.Message) {
+		entered++
+		<-release // a slow application handler
+	}, 1152)
+	closedCb := 0
+	cc.AddOnClose(func() { closedCb++ })
+	runDone := false
+	go func() {
+		_ = cc.Run()
+		runDone = true
+	}()
+	n := 2 + symParam("beyond-queue", 2) + 1 // queue of 2, one in the handler, and more
+	var stream []byte
+	for i := 0; i < n; i++ {
+		stream = append(stream, zzMkFrame(codes.GET, message.Token{0xC0, byte(i)}, nil)...)
+	}
+	nc.in <- stream
+	symIdle()
+	symAssert(entered == 1 && !runDone, "one handler is running, the rest waits")
+	if symChoose("end", 2) == 0 {
+		symAssert(cc.Close() == nil, "Close succeeds")
+		symCover("closed-locally")
+	} else {
+		close(nc.in)
+		symCover("peer-closed")
+		symIdle()
+		// the peer going away is only noticed once the loop reads again; closing locally must still work
+		symAssert(cc.Close() == nil, "Close succeeds")
+	}
+	symWaitUntil(func() bool { return runDone })
+	select {
+	case <-cc.Done():
+	default:
+		symAssert(false, "the done signal is completed once the processing loop has ended")
+	}
+	symAssert(closedCb == 1 && nc.closed, "the on-close callback ran once and the socket is closed")
+	close(release)
+	symIdle()
+	symCover("queue-full-closed")
 }
 
 func zzC09_tcp_selftest() {
